@@ -244,6 +244,10 @@ def run_c08(case):
             return False, {"why": "added arm missing after call %d" % i}
         if o[0] == "rem" and out[0] == "done" and o[1] in arms:
             return False, {"why": "removed arm still present after call %d" % i}
+        if o[0] in ("pred", "pexp") and out[0] == "rejected" and "same size" in str(out[-1]):
+            # numpy's choice(len(arms), p=no_nhood_prob_of_arm) raised: the probability list no longer has one entry per arm
+            return False, {"why": "predict raised at call %d: the no_nhood_prob_of_arm list was not resized with the arm list" % i,
+                           "exception": str(out[1:])[:200], "arms": arms, "no_nhood_prob": True}
         if o[0] in ("pred", "pexp") and out[0] != "rejected":
             m = None if o[1] is None else len(o[1])
             single = (m is None or m == 1)
@@ -551,6 +555,29 @@ def run_c13(t):
             return False, {"why": "warm set at quantile %s is not contained in the warm set at %s" % (lo, hi), "lo": sorted(wl), "hi": sorted(wh)}
     except Exception:
         pass
+    # "since the most recent fit": a re-fit on data in which some arms (a warm one, if there is one) do not occur makes exactly the
+    # observed arms trained and leaves no arm warm; cold_arms lists the others, and warm_start treats them as cold again
+    st_now = status_of(mab, inv)
+    warm_now = [a for a in arms if st_now[a][1]]
+    absent = set(warm_now[:1]) | {a for a in arms if rng.random() < 0.3}
+    present = [a for a in arms if a not in absent] or [arms[0]]
+    n2 = rng.randint(len(present), len(present) + 4)
+    ds2 = present + [rng.choice(present) for _ in range(n2 - len(present))]
+    rs2 = [float(rng.randint(0, 1)) for _ in ds2]
+    width = next((len(o[3][0]) for o in reversed(base["ops"]) if o[0] in ("fit", "pfit") and o[3]), None)
+    cx2 = None if width is None else [[float(rng.randint(0, 4)) for _ in range(width)] for _ in ds2]
+    try:
+        mab.fit([label(d) for d in ds2], rs2, cx2)
+    except Exception as e:
+        return True, {"skipped": "re-fit rejected: %r" % e}
+    st2 = status_of(mab, inv)
+    for a in arms:
+        if st2[a] != ((a in present), False, None):
+            return False, {"why": "after a re-fit in which arm %r %s its status is %s" % (a, "occurs" if a in present else "does not occur", st2[a]),
+                           "present": present, "was_warm": warm_now}
+    cold2 = [inv(x) for x in mab.cold_arms]
+    if cold2 != [a for a in arms if a not in present]:
+        return False, {"why": "cold_arms after a re-fit is not the list of arms without observations since that fit", "cold_arms": cold2, "present": present}
     return True, {}
 
 # ------------------------------------------------------------------ C14
